@@ -5,6 +5,7 @@ The failure chain of M-Sys as ONE invariant (`FInv`), and what follows from it a
 Imports C04's model, lemma library and reachable-state invariants read-only.
 -/
 namespace QM.Sys
+variable [Cfg]
 
 /-- an answer carrying an outcome of `t` for awaiter `a` is on its way -/
 def InFlight (s : Sys) (a t : Pid) : Prop :=
@@ -159,6 +160,7 @@ theorem FInv.of_started {s : Sys} (h : Started s) : FInv s := by
 end QM.Sys
 
 namespace QM.Sys
+variable [Cfg]
 
 /-! ### effect of one environment micro-step on queues and pending entries -/
 
@@ -198,6 +200,7 @@ theorem envEff (s : Sys) (w0 : Wid) (e : Evt) (rest : List Evt) :
     · exact ⟨rfl, rfl, fun _ _ h => h, fun _ _ _ => rfl⟩
     · exact ⟨rfl, rfl, fun w c hc => mem_upd_append_of_mem hc, fun _ _ _ => rfl⟩
   | resultResp q r => exact ⟨rfl, rfl, fun _ _ h => h, fun _ _ _ => rfl⟩
+  | exited p => exact ⟨rfl, rfl, fun _ _ h => h, fun _ _ _ => rfl⟩
   | await a ts =>
     simp only [handleEventWith, handleAwait]
     split
@@ -228,6 +231,7 @@ theorem envEff (s : Sys) (w0 : Wid) (e : Evt) (rest : List Evt) :
 end QM.Sys
 
 namespace QM.Sys
+variable [Cfg]
 
 theorem await_handled_pushes_query (s : Sys) (a : Pid) (ts : List Pid) (hrt : ∀ t ∈ ts, Routed s.env.router t)
     (t : Pid) (ht : t ∈ ts) :
@@ -385,6 +389,10 @@ theorem Chain.envStep1 {s : Sys} (hr : RInv s) (hc : Chain s) (ho : AwaitOrder s
           have hp' := eff.pend a (by intro ts h; cases h) (by intro rs h; cases h)
           obtain ⟨pa, rs0, h1, h2, h3⟩ := hph
           exact Or.inr (Or.inl (Or.inr (Or.inr (Or.inr (Or.inl ⟨wr, r, pa, rs0, by rw [hp']; exact h1, h2, h3⟩)))))
+        | exited q =>
+          have hp' := eff.pend a (by intro ts h; cases h) (by intro rs h; cases h)
+          obtain ⟨pa, rs0, h1, h2, h3⟩ := hph
+          exact Or.inr (Or.inl (Or.inr (Or.inr (Or.inr (Or.inl ⟨wr, r, pa, rs0, by rw [hp']; exact h1, h2, h3⟩)))))
         | await a' ts =>
           by_cases ha : a' = a
           · subst ha
@@ -457,6 +465,7 @@ theorem Chain.envStep1 {s : Sys} (hr : RInv s) (hc : Chain s) (ho : AwaitOrder s
 end QM.Sys
 
 namespace QM.Sys
+variable [Cfg]
 
 /-! ### `check_completed_processes` keeps the chain: a cleared registration becomes a report in flight -/
 
@@ -561,6 +570,7 @@ theorem Chain.tick {s : Sys} (hc : Chain s) (ms : Nat) : Chain { s with now := s
 end QM.Sys
 
 namespace QM.Sys
+variable [Cfg]
 
 theorem Keeps.learned {x x' : Proc} (h : Keeps x x') {t : Pid} (hl : Learned x t) : Learned x' t := by
   rcases hl with ⟨v, hv⟩ | hl
@@ -587,12 +597,13 @@ theorem applyResults_learns (a : Pid) : ∀ (rs : Results) (w : WorkerSt) (x : P
       ∀ t r, (t, some r) ∈ rs → x.stillAwaiting t = true → Learned x' t
   | [], w, x, hx => ⟨x, hx, Keeps.refl x, by intro t r h; cases h⟩
   | (t0, none) :: rest, w, x, hx => by
-    obtain ⟨x', h1, h2, h3⟩ := applyResults_learns a rest w x hx
-    refine ⟨x', by simpa [applyResults] using h1, h2, ?_⟩
+    obtain ⟨x1, g1, g2⟩ := notifyPending_keeps w a t0 x hx
+    obtain ⟨x', h1, h2, h3⟩ := applyResults_learns a rest (w.notifyPending a t0) x1 g1
+    refine ⟨x', by simpa [applyResults] using h1, g2.trans h2, ?_⟩
     intro t r ht hs
     rcases List.mem_cons.mp ht with h | h
     · cases h
-    · exact h3 t r h hs
+    · exact h3 t r h (by rw [g2.still]; exact hs)
   | (t0, some r0) :: rest, w, x, hx => by
     obtain ⟨x1, g1, g2, _⟩ := notifyResult_keeps w a t0 r0 x hx
     obtain ⟨x', h1, h2, h3⟩ := applyResults_learns a rest (w.notifyResult a t0 r0) x1 g1
@@ -672,6 +683,7 @@ theorem queryTargets_covers (a : Pid) : ∀ (ts : List Pid) (w : WorkerSt) (t : 
 end QM.Sys
 
 namespace QM.Sys
+variable [Cfg]
 
 theorem modProc_other (w : WorkerSt) (a b : Pid) (f : Proc → Proc) (h : b ≠ a) : (w.modProc a f).procs b = w.procs b := by
   unfold WorkerSt.modProc
@@ -696,7 +708,10 @@ theorem notifyResult_other (w : WorkerSt) (a t : Pid) (r : Res) (b : Pid) (h : b
 theorem applyResults_other (a : Pid) : ∀ (rs : Results) (w : WorkerSt) (b : Pid), b ≠ a →
     (applyResults w a rs).procs b = w.procs b
   | [], _, _, _ => rfl
-  | (_, none) :: rest, w, b, h => by simpa [applyResults] using applyResults_other a rest w b h
+  | (t0, none) :: rest, w, b, h => by
+    simp only [applyResults]
+    rw [applyResults_other a rest _ b h]
+    simp [WorkerSt.notifyPending, modProc_other _ _ _ _ h]
   | (t0, some r) :: rest, w, b, h => by
     simp only [applyResults]
     rw [applyResults_other a rest _ b h, notifyResult_other _ _ _ _ _ h]
@@ -888,6 +903,7 @@ theorem cmdRel (s : Sys) (i : Wid) (c : Cmd) (rest : List Cmd) (hnr : ∀ p fn, 
 end QM.Sys
 
 namespace QM.Sys
+variable [Cfg]
 
 /-- **The chain survives every command a worker consumes** (QueryAndAwait → answer or registration;
 UpdateAwaitResults → learned; the others do not touch the await bookkeeping). -/
@@ -954,6 +970,7 @@ theorem Chain.cmdStep1 {s : Sys} (hr : RInv s) (hc : Chain s) (i : Wid) : Chain 
 end QM.Sys
 
 namespace QM.Sys
+variable [Cfg]
 
 /-! ### a time slice and the await bookkeeping of the running process -/
 
@@ -1077,7 +1094,10 @@ theorem slice_await_aux (prog : Prog) (now : Nat) (self : Pid) : ∀ (fuel : Nat
             rintro (⟨v, hv⟩ | hl)
             · exact Or.inl ⟨v, k2 v hv⟩
             · exact Or.inr hl
-      · -- process_select_sources
+      · split at hres
+        · -- variant `selectWaits`: answers pending, nothing evaluated
+          subst hres; exact Or.inr ⟨h, id⟩
+        -- process_select_sources
         simp only [] at hres
         split at hres
         · rename_i v mb _
@@ -1086,6 +1106,7 @@ theorem slice_await_aux (prog : Prog) (now : Nat) (self : Pid) : ∀ (fuel : Nat
           · right
             have hsub := AwSub.complete p (selTargets p srcs)
               { p with selStart := none, pc := p.pc + 1, selInit := false, acc := p.acc ++ [v], mailbox := mb,
+                       unanswered := [],
                        awaiting := p.awaiting.filter (fun kv => kv.1 ∉ selTargets p srcs),
                        awaitFailed := p.awaitFailed.filter (· ∉ selTargets p srcs) } rfl rfl rfl t h1
             exact ⟨hsub.1, fun hl => h2 (hsub.2 hl)⟩
@@ -1095,6 +1116,7 @@ theorem slice_await_aux (prog : Prog) (now : Nat) (self : Pid) : ∀ (fuel : Nat
 end QM.Sys
 
 namespace QM.Sys
+variable [Cfg]
 
 /-! ### the finished branch: local awaiters are notified, nobody else is touched -/
 
@@ -1162,6 +1184,7 @@ theorem finish_awaiters (w : WorkerSt) (cur : Pid) (x : Proc) (ordQ : List Pid) 
 end QM.Sys
 
 namespace QM.Sys
+variable [Cfg]
 
 structure ExecRel (s s' : Sys) (i : Wid) : Prop where
   env : s'.env = s.env
@@ -1177,6 +1200,22 @@ theorem ExecRel.of_same {s s' : Sys} {i : Wid} (h1 : s'.env = s.env) (h2 : s'.cm
     (h4 : ∀ k, k ≠ i → s'.wk k = s.wk k) (h5 : (s'.wk i).awaitersFor = (s.wk i).awaitersFor)
     (h6 : (s'.wk i).procs = (s.wk i).procs) : ExecRel s s' i :=
   ⟨h1, h2, fun w e he => by rw [h3]; exact he, h4, h5, fun a x' t hx hs => Or.inr ⟨x', by rw [h6] at hx; exact hx, hs, id⟩⟩
+
+/-- variant `exitReports`: the extra `ProcessExited` event of a finishing step changes nothing the chain looks at -/
+theorem ExecRel.noteExit {s s' : Sys} {i : Wid} (h : ExecRel s s' i) (cur : Pid) (x : Proc) :
+    ExecRel s (s'.noteExit i cur x) i := by
+  unfold Sys.noteExit
+  split
+  · refine ⟨h.env, h.cmdQ, fun w e he => ?_, h.other, h.aw, fun a x' t hx hs => ?_⟩
+    · have := h.evts w e he
+      simp only [Sys.pushEvt]
+      by_cases hw : w = i
+      · subst hw; simp [upd_same, this]
+      · simp [upd_other _ _ _ _ hw, this]
+    · rcases h.procs a x' t hx hs with ⟨ts, h1, h2⟩ | h1
+      · exact Or.inl ⟨ts, by simp [Sys.pushEvt, upd_same, h1], h2⟩
+      · exact Or.inr h1
+  · exact h
 
 /-- the running process's record replaced by the result of its slice -/
 theorem procs_after_slice {procs : Pid → Option Proc} {cur : Pid} {x x' : Proc} {out : Outcome} {prog : Prog} {now fuel : Nat}
@@ -1208,6 +1247,7 @@ theorem ExecRel.execStep (s : Sys) (i : Wid) (fuel : Nat) (ordQ : List Pid) : Ex
       have hx0 : (s.wk i).procs cur = some x := hx
       split
       · -- an already failed process is announced
+        apply ExecRel.noteExit
         refine ⟨rfl, rfl, fun _ _ h => h, fun k hk => by simp [Sys.setWk, upd_other _ _ _ _ hk],
           by simp [Sys.setWk, finish_awaiters, hce_a], ?_⟩
         intro a y' t hy hs
@@ -1260,6 +1300,7 @@ theorem ExecRel.execStep (s : Sys) (i : Wid) (fuel : Nat) (ordQ : List Pid) : Ex
               exact Or.inl ⟨ts0, by simp [Sys.setWk, Sys.pushEvt], hts⟩
             · exact Or.inr h
           | failed =>
+            apply ExecRel.noteExit
             refine ⟨rfl, rfl, fun _ _ h => h, fun k hk => by simp [Sys.setWk, upd_other _ _ _ _ hk],
               by simp [Sys.setWk, finish_awaiters, hce_a], ?_⟩
             intro a y' t hy hs
@@ -1268,6 +1309,7 @@ theorem ExecRel.execStep (s : Sys) (i : Wid) (fuel : Nat) (ordQ : List Pid) : Ex
             simp only [upd_other _ _ _ _ hne] at h1
             exact Or.inr ⟨y, h1, h2, h3⟩
           | done =>
+            apply ExecRel.noteExit
             refine ⟨rfl, rfl, fun _ _ h => h, fun k hk => by simp [Sys.setWk, upd_other _ _ _ _ hk],
               by simp [Sys.setWk, finish_awaiters, hce_a], ?_⟩
             intro a y' t hy hs
@@ -1309,6 +1351,7 @@ theorem Chain.execStep {s : Sys} (hc : Chain s) (i : Wid) (fuel : Nat) (ordQ : L
 end QM.Sys
 
 namespace QM.Sys
+variable [Cfg]
 
 /-- the chain survives EVERY micro-step of the composed system; only the environment step needs the
 positional facts about the event it consumes -/
